@@ -622,8 +622,27 @@ func (prop) Generate(r *core.RNG, tier string) []json.RawMessage {
 	for _, c := range corner() {
 		out = append(out, enc(c))
 	}
-	for _, c := range genericArgsInputs(r.Fork(), tier) {
+	// field names of every legal identifier shape; OutputFileBaseName x three runs (names.go)
+	for _, c := range fieldNameInputs(r.Fork(), tier) {
 		out = append(out, enc(c))
+	}
+	for _, c := range baseNameInputs(r.Fork(), tier) {
+		out = append(out, enc(c))
+	}
+	// a third of the generic / tree / random packages below is renamed with names of mixed shapes, a fifth of the random
+	// stream is generated under another output file base name (own generator: the stream itself stays as it was)
+	rn := r.Fork()
+	vary := func(in Input, names, base bool) Input {
+		if names && rn.Chance(33) {
+			in = renameFields(rn.Fork(), in, pickMixed)
+		}
+		if base && rn.Chance(20) {
+			in.Base = core.Pick(rn, baseNames)
+		}
+		return in
+	}
+	for _, c := range genericArgsInputs(r.Fork(), tier) {
+		out = append(out, enc(vary(c, true, false)))
 	}
 	// trees of by-value struct dependencies, only the root tagged: the fixed shapes in every field order, then random
 	// trees of fan-out 2-3 and depth 2-3 (a fifth of them with further tags)
@@ -641,7 +660,7 @@ func (prop) Generate(r *core.RNG, tier string) []json.RawMessage {
 		if i%5 == 4 {
 			tagPct = 25
 		}
-		out = append(out, enc(treeInput(r.Fork(), t, r.Uint64()%1000000, tagPct)))
+		out = append(out, enc(vary(treeInput(r.Fork(), t, r.Uint64()%1000000, tagPct), true, false)))
 	}
 	n := 22
 	if tier == "thorough" {
@@ -651,11 +670,11 @@ func (prop) Generate(r *core.RNG, tier string) []json.RawMessage {
 		seed := r.Uint64() % 1000000
 		switch k := r.Intn(100); {
 		case k < 10:
-			out = append(out, enc(outsideInput(r.Fork(), seed)))
+			out = append(out, enc(vary(outsideInput(r.Fork(), seed), true, true)))
 		case k < 18:
-			out = append(out, enc(shadowInput(r.Fork(), seed)))
+			out = append(out, enc(vary(shadowInput(r.Fork(), seed), true, true)))
 		default:
-			out = append(out, enc(randomInput(r.Fork(), seed)))
+			out = append(out, enc(vary(randomInput(r.Fork(), seed), true, true)))
 		}
 	}
 	if tier == "thorough" {
@@ -721,6 +740,34 @@ func (prop) Shrink(raw json.RawMessage) []json.RawMessage {
 				out = append(out, enc(c))
 			}
 		}
+	}
+	// a plain name for a field (F<j> style); the conventional output file base name
+	for i := range in.Decls {
+		for j, f := range in.Decls[i].Fields {
+			if rePlainName.MatchString(f.Name) {
+				continue
+			}
+			for n := 0; ; n++ {
+				cand := fmt.Sprintf("N%d", n)
+				taken := false
+				for _, g := range in.Decls[i].Fields {
+					if g.Name == cand {
+						taken = true
+					}
+				}
+				if !taken {
+					c := clone()
+					c.Decls[i].Fields[j].Name = cand
+					out = append(out, enc(c))
+					break
+				}
+			}
+		}
+	}
+	if in.Base != "" {
+		c := clone()
+		c.Base = ""
+		out = append(out, enc(c))
 	}
 	// clear flags
 	if in.PkgTag {
